@@ -852,6 +852,10 @@ fn b_line<P: GenericPacketTrait + PartialEq + AccDump>(
         Ok(Ok(p)) => {
             let (size, cont, bufs) = observe(&p);
             let fh = cont[0];
+            if ver == 5 {
+                // the built packet's own property lists (accessors), for the placement / multiplicity table
+                writeln!(out, "BA {ver} {pw} {fh:02x} acc={}", observe_acc(&p)).unwrap();
+            }
             let body = split_frame(&cont).map(|x| x.1).unwrap_or_default();
             let mut eq = false;
             let r = run(|| {
@@ -1511,6 +1515,32 @@ fn directed(out: &mut dyn Write) {
         (4, 2, 0x10, "00044d5154540482003c00000001ff"),
         (4, 2, 0x10, "00044d51545404c2003c000000016100"),
     ];
+    // shared-subscription filters with multi-byte share names (well-formed UTF-8), with and
+    // without wildcards inside the share name, SUBSCRIBE and UNSUBSCRIBE, both versions
+    for filter in ["$share/g/t", "$share/g/+/x", "t/#", "$share/é/t", "$share/グループ/a/b", "$share/é+/t", "$share/é#/t", "$share/€/+/x", "$share/é", "$share/é/"] {
+        for ver in [4u8, 5] {
+            let f = filter.as_bytes();
+            let mut sub = vec![0x00, 0x01];
+            let mut unsub = vec![0x00, 0x01];
+            if ver == 5 {
+                sub.push(0);
+                unsub.push(0);
+            }
+            for b in [&mut sub, &mut unsub] {
+                b.push((f.len() >> 8) as u8);
+                b.push(f.len() as u8);
+                b.extend_from_slice(f);
+            }
+            // subscription options: QoS, No Local, Retain As Published, Retain Handling (v5.0)
+            let opts: &[u8] = if ver == 5 { &[0x00, 0x01, 0x02, 0x04, 0x08, 0x09, 0x18, 0x29] } else { &[0x00, 0x01, 0x02] };
+            for o in opts {
+                let mut b = sub.clone();
+                b.push(*o);
+                p_line(out, ver, 2, 0x82, &b);
+            }
+            p_line(out, ver, 2, 0xa2, &unsub);
+        }
+    }
     for (ver, pw, fh, h) in cases {
         let h: String = h.chars().filter(|c| !c.is_whitespace()).collect();
         let h = if h.len() % 2 == 1 { h[..h.len() - 1].to_string() } else { h };
